@@ -19,11 +19,13 @@ public:
 
 	friend void swap(small_vector &a, small_vector &b) {
 		using std::swap;
+		// Elements in the inline storage have to be moved one by one;
+		// swapping the raw bytes would relocate them without running a constructor.
+		small_vector tmp(a._allocator);
+		tmp._take(a);
+		a._take(b);
+		b._take(tmp);
 		swap(a._allocator, b._allocator);
-		swap(a._array, b._array);
-		swap(a._elements, b._elements);
-		swap(a._size, b._size);
-		swap(a._capacity, b._capacity);
 	}
 
 	small_vector(Allocator allocator = Allocator())
@@ -158,6 +160,26 @@ public:
 private:
 	bool _is_small() const {
 		return _capacity <= N;
+	}
+
+	// Takes over the contents of other, leaving it empty.
+	// *this must be empty and must use the inline storage.
+	void _take(small_vector &other) {
+		if (other._is_small()) {
+			auto source = other._get_container();
+			auto container = _get_container();
+			for (size_t i = 0; i < other._size; i++) {
+				new (&container[i]) T(std::move(source[i]));
+				source[i].~T();
+			}
+		} else {
+			_elements = other._elements;
+			_capacity = other._capacity;
+			other._elements = nullptr;
+			other._capacity = N;
+		}
+		_size = other._size;
+		other._size = 0;
 	}
 
 	void _ensure_capacity(size_t capacity) {
